@@ -230,7 +230,7 @@ void Runner::op_poll(Thread *t, int idx, const Op &op, OpRes &res) {
     if (earliest_hi >= 0 && h->dl_lo_ms > earliest_hi)
       viol("C08", "deadline-event-wrong-source", "sources=" + pat, fmt("source %zu (deadline %lld ms) is not the one with the earliest deadline (%lld ms)", who,
                                                                       (long long) h->dl_lo_ms, (long long) earliest_hi), idx);
-    if (timeout >= 0 && t0ms + timeout + 1 < h->dl_lo_ms)
+    if (timeout >= 0 && std::max(t0ms + timeout, cx.last_clock_ms) + 1 < h->dl_lo_ms)
       viol("C08", "deadline-event-before-timeout", "sources=" + pat, "the timeout lies before the deadline but the deadline event was reported", idx);
     int eqc = 0;
     for (size_t i = 0; i < n; i++) if (hv[i] && hv[i]->dl_lo_ms == h->dl_lo_ms) eqc++;
@@ -424,12 +424,12 @@ void Runner::op_drain_run(Thread *t, int idx, const Op &op, OpRes &res) {
   bool failed_by_sink = d.fail_at > 0 && d.ncalls >= d.fail_at;
   if (d.corrupt) viol("C16", "sink-data-corrupted", cfg, "a sink received bytes that differ from what the child wrote on that stream at that offset", idx);
   if (st0 == LS_NEW && !is_run) { /* drain before start: sinks get the initial calls, then the closed-pipe error ends it with 0 */ }
-  if (cb_out) {
+  if (cb_out && !(injected && v < 0 && cs.empty())) {
     if (cs.size() <= pos || cs[pos].which != 0 || cs[pos].tag != C.STREAM_IN || cs[pos].size != 0)
       viol("C16", "initial-call-missing", "sink=out", "the first sink call must go to the out sink with the input tag and size 0", idx);
     else pos++;
   }
-  if (cb_err && !(failed_by_sink && d.fail_at == 1 && cb_out)) {
+  if (cb_err && !(failed_by_sink && d.fail_at == 1 && cb_out) && !(injected && v < 0 && cs.size() == pos)) {
     if (cs.size() <= pos || cs[pos].which != 1 || cs[pos].tag != C.STREAM_IN || cs[pos].size != 0)
       viol("C16", "initial-call-missing", "sink=err", "the second sink call must go to the err sink with the input tag and size 0", idx);
     else pos++;
